@@ -550,4 +550,112 @@ theorem afterK_append_ge (spent : List (Spend ℝ)) (slack : ℝ) (k : Nat) (hs0
         exact mul_self_nonneg _))
     · linarith [mul_self_nonneg sp.eps]
 
+/-! ### the bisection over ℝ: staying inside the bracket, and two bisections in lockstep -/
+
+/-- `a.total` over ℝ, when it returns, returns `totalCore` -/
+theorem total_ok (a : Acc ℝ) (t : Tot ℝ) (h : a.total = .ok t) :
+    t = totalCore a.spent a.slack ∧ 0 ≤ t.eps ∧ 0 ≤ t.delta ∧ t.delta ≤ 1 := by
+  unfold Acc.total at h
+  obtain ⟨rfl, h1, h2, h3⟩ := mkBudget_ok _ _ t h
+  exact ⟨rfl, h1, h2, h3⟩
+
+/-- one bisection step stays inside the bracket -/
+theorem remStep_sub (a : Acc ℝ) (k : Nat) (b b' : Bis ℝ) (hb' : a.remStep k b = .ok b') (hlu : b.lower ≤ b.upper) :
+    b.lower ≤ b'.lower ∧ b'.lower ≤ b'.upper ∧ b'.upper ≤ b.upper := by
+  obtain ⟨t, -, rfl⟩ := remStep_ok a k b b' hb'
+  dsimp only
+  have hlm : b.lower ≤ (b.upper + b.lower) / 2 := by linarith
+  have hmu : (b.upper + b.lower) / 2 ≤ b.upper := by linarith
+  by_cases c1 : t.eps ≤ a.ceilEps <;> by_cases c2 : a.ceilEps ≤ t.eps
+  · rw [if_pos c1, if_pos c2]; exact ⟨hlm, le_rfl, hmu⟩
+  · rw [if_pos c1, if_neg c2]; exact ⟨hlm, hmu, le_rfl⟩
+  · rw [if_neg c1, if_pos c2]; exact ⟨le_rfl, hlm, hmu⟩
+  · exfalso; exact c2 (le_of_lt (not_le.mp c1))
+
+/-- the whole loop stays inside its initial bracket -/
+theorem remLoop_sub (a : Acc ℝ) (k fuel : Nat) (b r : Bis ℝ) (n : Nat) (hlu : b.lower ≤ b.upper)
+    (h : a.remLoop k fuel b = .ok (r, n)) : b.lower ≤ r.lower ∧ r.lower ≤ r.upper ∧ r.upper ≤ b.upper := by
+  have := remLoop_spec a k (fun _ x => b.lower ≤ x.lower ∧ x.lower ≤ x.upper ∧ x.upper ≤ b.upper) ?_
+    fuel 0 b r n ⟨le_rfl, hlu, le_rfl⟩ h
+  · exact this.1
+  · intro i x x' hP _ hx'
+    obtain ⟨h1, h2, h3⟩ := remStep_sub a k x x' hx' hP.2.1
+    exact ⟨hP.1.trans h1, h2, h3.trans hP.2.2⟩
+
+/-- two bisections run in lockstep against pointwise ordered totals (`a₁` is the more expensive history): the
+brackets stay either identical or ordered -/
+theorem remLoop_lockstep (a₁ a₂ : Acc ℝ) (k : Nat) (hce : a₁.ceilEps = a₂.ceilEps)
+    (hF : ∀ x, afterK a₂.spent a₂.slack k x ≤ afterK a₁.spent a₁.slack k x) :
+    ∀ (fuel : Nat) (b₁ b₂ r₁ r₂ : Bis ℝ) (n₁ n₂ : Nat), b₁.lower ≤ b₁.upper → b₂.lower ≤ b₂.upper →
+      (b₁ = b₂ ∨ b₁.upper ≤ b₂.lower) →
+      a₁.remLoop k fuel b₁ = .ok (r₁, n₁) → a₂.remLoop k fuel b₂ = .ok (r₂, n₂) →
+      r₁.lower ≤ r₁.upper ∧ r₂.lower ≤ r₂.upper ∧
+        ((r₁.lower = r₂.lower ∧ r₁.upper = r₂.upper) ∨ r₁.upper ≤ r₂.lower) := by
+  intro fuel
+  induction fuel with
+  | zero =>
+    intro b₁ b₂ r₁ r₂ n₁ n₂ h1 h2 hrel e1 e2
+    simp only [Acc.remLoop] at e1 e2
+    cases e1; cases e2
+    rcases hrel with rfl | hd
+    · exact ⟨h1, h2, Or.inl ⟨rfl, rfl⟩⟩
+    · exact ⟨h1, h2, Or.inr hd⟩
+  | succ fuel ih =>
+    intro b₁ b₂ r₁ r₂ n₁ n₂ h1 h2 hrel e1 e2
+    rcases hrel with rfl | hd
+    · -- identical brackets: the loop test is the same for both
+      simp only [Acc.remLoop] at e1 e2
+      by_cases hc : b₁.upper - b₁.lower < b₁.old
+      · rw [if_pos hc] at e1 e2
+        simp only [bind, Except.bind, pure, Except.pure] at e1 e2
+        split at e1
+        · cases e1
+        · rename_i b₁' hb₁'
+          split at e2
+          · cases e2
+          · rename_i b₂' hb₂'
+            split at e1
+            · cases e1
+            · rename_i rn₁ hrn₁
+              split at e2
+              · cases e2
+              · rename_i rn₂ hrn₂
+                obtain ⟨r₁', m₁⟩ := rn₁
+                obtain ⟨r₂', m₂⟩ := rn₂
+                simp only [Except.ok.injEq, Prod.mk.injEq] at e1 e2
+                obtain ⟨rfl, -⟩ := e1
+                obtain ⟨rfl, -⟩ := e2
+                have s1 := remStep_sub a₁ k b₁ b₁' hb₁' h1
+                have s2 := remStep_sub a₂ k b₁ b₂' hb₂' h1
+                refine ih b₁' b₂' r₁' r₂' m₁ m₂ s1.2.1 s2.2.1 ?_ hrn₁ hrn₂
+                obtain ⟨t₁, ht₁, rfl⟩ := remStep_ok a₁ k b₁ b₁' hb₁'
+                obtain ⟨t₂, ht₂, rfl⟩ := remStep_ok a₂ k b₁ b₂' hb₂'
+                obtain ⟨rfl, -, -, -⟩ := totalGiven_ok _ _ _ t₁ ht₁
+                obtain ⟨rfl, -, -, -⟩ := totalGiven_ok _ _ _ t₂ ht₂
+                have hv := hF ((b₁.upper + b₁.lower) / 2)
+                unfold afterK at hv
+                rw [← hce]
+                set v₁ := (totalCore (a₁.spent ++ List.replicate k ⟨(b₁.upper + b₁.lower) / 2, 0⟩) a₁.slack).eps
+                set v₂ := (totalCore (a₂.spent ++ List.replicate k ⟨(b₁.upper + b₁.lower) / 2, 0⟩) a₂.slack).eps
+                by_cases c1 : v₁ ≤ a₁.ceilEps
+                · have c1' : v₂ ≤ a₁.ceilEps := hv.trans c1
+                  by_cases c2 : a₁.ceilEps ≤ v₁
+                  · by_cases c3 : a₁.ceilEps ≤ v₂
+                    · left; rw [if_pos c1, if_pos c2, if_pos c1', if_pos c3]
+                    · right; rw [if_pos c2, if_pos c1']
+                  · have c3 : ¬ a₁.ceilEps ≤ v₂ := fun h => c2 (h.trans hv)
+                    left; rw [if_pos c1, if_neg c2, if_pos c1', if_neg c3]
+                · have c2 : a₁.ceilEps ≤ v₁ := le_of_lt (not_le.mp c1)
+                  by_cases c1' : v₂ ≤ a₁.ceilEps
+                  · right; rw [if_pos c2, if_pos c1']
+                  · have c3 : a₁.ceilEps ≤ v₂ := le_of_lt (not_le.mp c1')
+                    left; rw [if_neg c1, if_pos c2, if_neg c1', if_pos c3]
+      · rw [if_neg hc] at e1 e2
+        cases e1; cases e2
+        exact ⟨h1, h1, Or.inl ⟨rfl, rfl⟩⟩
+    · -- ordered brackets stay ordered because each loop stays inside its own bracket
+      have s1 := remLoop_sub a₁ k _ b₁ r₁ n₁ h1 e1
+      have s2 := remLoop_sub a₂ k _ b₂ r₂ n₂ h2 e2
+      exact ⟨s1.2.1, s2.2.1, Or.inr (s1.2.2.trans (hd.trans s2.1))⟩
+
 end DPL
